@@ -692,6 +692,13 @@ def builtin_call(self, st, name, args, kwargs, node=None):
         return [(OK, st, Val(r, SeqT(INT)))]
     if name == "next":
         return self.do_next(st, a[0], a[1] if len(a) > 1 else None)
+    if name == "getattr" and len(a) >= 2 and isinstance(a[1], Val) and a[1].template is not None:
+        obj, attr = a[0], a[1].template
+        if isinstance(obj, ObjRef) and self.has_field(obj, attr):
+            return [(OK, st, self.heap_read(st, obj, attr))]     # Optional field: None models "attribute not set"
+        if len(a) > 2:
+            raise Unsupported(f"getattr(.., {attr!r}, default) on an object without that declared field")
+        return [(OK, st, self.getattr(st, obj, attr))]
     if name == "iter":
         return [(OK, st, a[0])]
     if name == "str":
